@@ -764,7 +764,7 @@ func TestHttpSubRequest(t *testing.T) {
 	resetNotes()
 	pbt.Run(t, pbt.Spec[HttpCase]{
 		ID: "C13", Name: "http-flv-ts-request", Gen: genHttpCase("sub"), Run: runHttpSub, Classify: classifyHttp, Isolate: true,
-		Quick: 300, Thorough: 1500,
+		Quick: 50, Thorough: 700,
 	})
 }
 
@@ -772,7 +772,7 @@ func TestHlsRequest(t *testing.T) {
 	resetNotes()
 	pbt.Run(t, pbt.Spec[HttpCase]{
 		ID: "C13", Name: "hls-request", Gen: genHttpCase("hls"), Run: runHls, Classify: classifyHttp, Isolate: true,
-		Quick: 250, Thorough: 1500,
+		Quick: 40, Thorough: 700,
 	})
 }
 
@@ -780,7 +780,7 @@ func TestHttpApiRequest(t *testing.T) {
 	resetNotes()
 	pbt.Run(t, pbt.Spec[HttpCase]{
 		ID: "C13", Name: "http-api-request", Gen: genHttpCase("api"), Run: runApi, Classify: classifyHttp, Isolate: true,
-		Quick: 1000, Thorough: 4000,
+		Quick: 300, Thorough: 2000,
 	})
 }
 
@@ -788,6 +788,6 @@ func TestHttpListener(t *testing.T) {
 	resetNotes()
 	pbt.Run(t, pbt.Spec[HttpCase]{
 		ID: "C13", Name: "http-listener-request", Gen: genHttpCase("l3"), Run: runL3, Classify: classifyHttp, Isolate: true,
-		Quick: 150, Thorough: 800,
+		Quick: 50, Thorough: 400,
 	})
 }
